@@ -1,6 +1,7 @@
 import Srtla.Model.Sys
 import Srtla.Lemmas.Log
 import Srtla.Lemmas.Codec
+import Srtla.Lemmas.Keepalive
 /-!
 # Lemmas for the uplink receive arm (`handle_uplink_packet`) — C09 / C14
 
@@ -526,31 +527,275 @@ theorem handleUplinkPacket_eq (s : Sys F) (cid : Nat) (data : Codec.Bytes) (now 
   obtain ⟨l1, reg1, inc⟩ := r
   cases inc.reg1Send <;> simp [processConnectionEvents]
 
-/-- Every link after one uplink event, relative to the same position before it. -/
-theorem handleUplinkPacket_links (s : Sys F) (cid : Nat) (data : Codec.Bytes) (now idx : Nat) (l : FLink F)
+/-! ## The arrival link, arm by arm -/
+
+section proj
+variable (l : FLink F)
+
+omit [Scalar F] in
+@[simp] theorem rrp_lastReceived : l.recordRttProbe.core.lastReceived = l.core.lastReceived := by
+  unfold FLink.recordRttProbe; split <;> (try split) <;> rfl
+omit [Scalar F] in
+@[simp] theorem rrp_proofMs : l.recordRttProbe.core.proofMs = l.core.proofMs := by
+  unfold FLink.recordRttProbe; split <;> (try split) <;> rfl
+omit [Scalar F] in
+@[simp] theorem rrp_log : l.recordRttProbe.core.log = l.core.log := by
+  unfold FLink.recordRttProbe; split <;> (try split) <;> rfl
+omit [Scalar F] in
+@[simp] theorem rrp_connId : l.recordRttProbe.core.connId = l.core.connId := by
+  unfold FLink.recordRttProbe; split <;> (try split) <;> rfl
+omit [Scalar F] in
+@[simp] theorem rrp_connected : l.recordRttProbe.core.connected = l.core.connected := by
+  unfold FLink.recordRttProbe; split <;> (try split) <;> rfl
+omit [Scalar F] in
+@[simp] theorem rrp_highestAcked : l.recordRttProbe.core.highestAcked = l.core.highestAcked := by
+  unfold FLink.recordRttProbe; split <;> (try split) <;> rfl
+omit [Scalar F] in
+@[simp] theorem rrp_rtt : l.recordRttProbe.rtt = l.rtt := by
+  unfold FLink.recordRttProbe; split <;> (try split) <;> rfl
+omit [Scalar F] in
+@[simp] theorem rrp_lks : l.recordRttProbe.lastKeepaliveSent = l.lastKeepaliveSent := by
+  unfold FLink.recordRttProbe; split <;> (try split) <;> rfl
+
+end proj
+
+/-- The keepalive arm: the link is stamped; its log, ids and cadence clock are untouched; the proof
+stamp and the RTT filter move only when an outstanding probe is answered with an age in `(0, 10000]`. -/
+theorem kaLink_spec (l : FLink F) (data : Codec.Bytes) (now : Nat) :
+    (kaLink l data now).core.lastReceived = some now ∧
+    (kaLink l data now).core.log = l.core.log ∧
+    (kaLink l data now).core.connId = l.core.connId ∧
+    (kaLink l data now).core.connected = l.core.connected ∧
+    (kaLink l data now).core.highestAcked = l.core.highestAcked ∧
+    (kaLink l data now).lastKeepaliveSent = l.lastKeepaliveSent ∧
+    (((kaLink l data now).core.proofMs = l.core.proofMs ∧
+        ((kaLink l data now).rtt = l.rtt ∨
+         (l.rtt.waiting = true ∧ (kaLink l data now).rtt = { l.rtt with waiting := false }))) ∨
+     (l.rtt.waiting = true ∧ ∃ ts, Codec.extractKeepaliveTimestamp data = .ok (some ts) ∧
+        0 < now - ts ∧ now - ts ≤ 10000 ∧ (kaLink l data now).core.proofMs = now ∧
+        (kaLink l data now).rtt = { (l.rtt.updateEstimate (now - ts) now) with waiting := false })) := by
+  unfold kaLink
+  cases hs : ((stamp l now).handleKeepaliveResponse data now).2 with
+  | some r =>
+    obtain ⟨hw, ts, hts, hr, h0, h1, he⟩ := Keepalive.hkr_some (stamp l now) data now r hs
+    subst hr
+    simp only [he]
+    refine ⟨by simp [stamp], by simp [stamp], by simp [stamp], by simp [stamp], by simp [stamp],
+      by simp [stamp], Or.inr ⟨hw, ts, hts, h0, h1, by simp, by simp [stamp]⟩⟩
+  | none =>
+    have he := Keepalive.hkr_none (stamp l now) data now hs
+    simp only [he]
+    by_cases hw : l.rtt.waiting = true
+    · have hw' : (stamp l now).rtt.waiting = true := hw
+      simp only [hw', if_true]
+      exact ⟨rfl, rfl, rfl, rfl, rfl, rfl, Or.inl ⟨rfl, Or.inr ⟨hw, rfl⟩⟩⟩
+    · have hw' : ¬ (stamp l now).rtt.waiting = true := hw
+      simp only [hw']
+      exact ⟨rfl, rfl, rfl, rfl, rfl, rfl, Or.inl ⟨rfl, Or.inl rfl⟩⟩
+
+theorem pupSpec_none (l : FLink F) (idx : Nat) (reg : Reg.Reg) (ck : Bool) (data : Codec.Bytes) (now : Nat)
+    (h : Codec.getPacketTypeS data = none) : pupSpec l idx reg ck data now = (l, reg, {}) := by
+  unfold pupSpec; simp only [h]
+
+/-- Which arm ran, by type code. -/
+theorem arrival_cases (l : FLink F) (idx : Nat) (reg : Reg.Reg) (ck : Bool) (data : Codec.Bytes)
+    (now pt : Nat) (hpt : Codec.getPacketTypeS data = some pt) :
+    (pt = 0x9211 ∧ (arrival l idx reg ck data now = l ∨
+        arrival l idx reg ck data now = { l with core := { l.core with lastSent := some now } })) ∨
+    (pt = 0x9201 ∧ arrival l idx reg ck data now = l) ∨
+    (pt = 0x9202 ∧ arrival l idx reg ck data now = reg3Link l now) ∨
+    (pt = 0x9210 ∧ arrival l idx reg ck data now = l.markForRecovery) ∨
+    (pt = 0x9000 ∧ arrival l idx reg ck data now = kaLink l data now) ∨
+    (pt ≠ 0x9211 ∧ pt ≠ 0x9201 ∧ pt ≠ 0x9202 ∧ pt ≠ 0x9210 ∧ pt ≠ 0x9000 ∧
+      arrival l idx reg ck data now = stamp l now) := by
+  unfold arrival pupSpec
+  simp only [hpt]
+  by_cases h1 : pt = 0x9211
+  · simp only [h1, if_true]
+    left
+    refine ⟨trivial, ?_⟩
+    cases (Reg.reg1IfNgpImmediate (Reg.handleRegNgp reg idx now) idx now).2 <;> simp
+  by_cases h2 : pt = 0x9201
+  · simp [h2]
+  by_cases h3 : pt = 0x9202
+  · simp [h3]
+  by_cases h4 : pt = 0x9210
+  · simp [h4]
+  by_cases h5 : pt = 0x9000
+  · simp [h5]
+  right; right; right; right; right
+  refine ⟨by simpa using h1, by simpa using h2, by simpa using h3, by simpa using h4, by simpa using h5, ?_⟩
+  by_cases h6 : pt = 0x8002
+  · simp [h6]
+  by_cases h7 : pt = 0x8003
+  · simp [h7]
+  by_cases h8 : pt = 0x9100
+  · simp [h8]
+  simp [h1, h2, h3, h4, h5, h6, h7, h8]
+
+/-- What the arm hands to `process_connection_events`, by type code. -/
+theorem incoming_spec (l : FLink F) (idx : Nat) (reg : Reg.Reg) (ck : Bool) (data : Codec.Bytes)
+    (now pt : Nat) (hpt : Codec.getPacketTypeS data = some pt) :
+    (pupSpec l idx reg ck data now).2.2.forward =
+      (if pt = 0x9211 ∨ pt = 0x9201 ∨ pt = 0x9202 ∨ pt = 0x9210 ∨ pt = 0x9100 ∨ pt = 0x9000 then []
+       else [data]) ∧
+    (pupSpec l idx reg ck data now).2.2.direct = (if pt = 0x8002 ∧ ck = true then [data] else []) ∧
+    (pupSpec l idx reg ck data now).2.2.sacks =
+      (if pt = 0x9100 then Codec.unChk [] (Codec.parseSrtlaAck data) else []) ∧
+    (pupSpec l idx reg ck data now).2.2.acks =
+      (if pt = 0x8002 then (match Codec.unChk none (Codec.parseSrtAck data) with
+        | some a => [a]
+        | none => []) else []) ∧
+    (pupSpec l idx reg ck data now).2.2.naks =
+      (if pt = 0x8003 then Codec.unChk [] (Codec.parseSrtNak data) else []) ∧
+    (pt ≠ 0x9211 → (pupSpec l idx reg ck data now).2.2.reg1Send = none) := by
+  unfold pupSpec
+  simp only [hpt]
+  by_cases h1 : pt = 0x9211
+  · simp [h1]
+  by_cases h2 : pt = 0x9201
+  · simp [h2]
+  by_cases h3 : pt = 0x9202
+  · simp [h3]
+  by_cases h4 : pt = 0x9210
+  · simp [h4]
+  by_cases h5 : pt = 0x8002
+  · simp [h5]
+  by_cases h6 : pt = 0x8003
+  · simp [h6]
+  by_cases h7 : pt = 0x9100
+  · simp [h7]
+  by_cases h8 : pt = 0x9000
+  · simp [h8]
+  simp [h1, h2, h3, h4, h5, h6, h7, h8]
+
+/-! ## Output of one uplink event -/
+
+omit [Scalar F] in
+theorem exists_findIdx (ls : List (FLink F)) (cid : Nat) (h : ∃ l ∈ ls, l.core.connId = cid) :
+    ∃ idx, ls.findIdx? (·.core.connId == cid) = some idx := by
+  cases hf : ls.findIdx? (·.core.connId == cid) with
+  | some i => exact ⟨i, rfl⟩
+  | none =>
+    obtain ⟨l, hl, hc⟩ := h
+    have := List.findIdx?_eq_none_iff.mp hf l hl
+    simp [hc] at this
+
+theorem unknown_link (s : Sys F) (cid : Nat) (data : Codec.Bytes) (now : Nat)
+    (h : s.links.findIdx? (·.core.connId == cid) = none) :
+    handleUplinkPacket s cid data now = (s, {}) := by
+  unfold handleUplinkPacket
+  split
+  · rfl
+  · simp only [h]
+
+omit [Scalar F] in
+theorem withCores_self (ls : List (FLink F)) : withCores ls (cores ls) = ls := by
+  unfold withCores cores
+  induction ls with
+  | nil => rfl
+  | cons l rest ih =>
+    simp only [List.map_cons, List.zip_cons_cons]
+    rw [ih]
+
+omit [Scalar F] in
+theorem setAt_self (ls : List (FLink F)) (i : Nat) (l : FLink F) (h : ls[i]? = some l) :
+    setAt ls i l = ls := by
+  apply List.ext_getElem?
+  intro j
+  rw [getElem?_setAt]
+  split
+  · rename_i hj; subst hj; rw [h]; rfl
+  · rfl
+
+/-- A datagram too short to carry a type code changes nothing and produces no output. -/
+theorem short_datagram (s : Sys F) (cid : Nat) (data : Codec.Bytes) (now : Nat) (h : data.length < 2) :
+    (handleUplinkPacket s cid data now).1 = s ∧ (handleUplinkPacket s cid data now).2.wire = [] ∧
+    (handleUplinkPacket s cid data now).2.client = [] ∧
+    (handleUplinkPacket s cid data now).2.hkErr = false := by
+  match data, h with
+  | [], _ => simp [handleUplinkPacket]
+  | [x], _ =>
+    cases hf : s.links.findIdx? (·.core.connId == cid) with
+    | none => rw [unknown_link s cid [x] now hf]; exact ⟨rfl, rfl, rfl, rfl⟩
+    | some idx =>
+      obtain ⟨l, hl, -⟩ := findIdx_get s.links cid idx hf
+      rw [handleUplinkPacket_eq s cid [x] now idx l (by simp) hf hl]
+      have hp : pupSpec l idx s.reg s.clientKnown [x] now = (l, s.reg, {}) :=
+        pupSpec_none l idx s.reg s.clientKnown [x] now rfl
+      have ha : arrival l idx s.reg s.clientKnown [x] now = l := by
+        unfold arrival; rw [hp]
+      rw [ha, hp]
+      dsimp only
+      rw [setAt_self s.links idx l hl]
+      refine ⟨?_, rfl, by simp, rfl⟩
+      unfold processConnectionEvents
+      simp only [List.foldl_nil, withCores_self]
+
+/-- What reaches the SRT client, by type code (`ck` = a client address is known). -/
+theorem client_out (s : Sys F) (cid : Nat) (data : Codec.Bytes) (now pt idx : Nat)
+    (hpt : Codec.getPacketTypeS data = some pt)
+    (hidx : s.links.findIdx? (·.core.connId == cid) = some idx) :
+    (handleUplinkPacket s cid data now).2.client =
+      (if pt = 0x8002 ∧ s.clientKnown = true then [data] else []) ++
+      (if s.clientKnown = true then
+        (if pt = 0x9211 ∨ pt = 0x9201 ∨ pt = 0x9202 ∨ pt = 0x9210 ∨ pt = 0x9100 ∨ pt = 0x9000 then []
+         else [data])
+       else []) := by
+  obtain ⟨l, hl, -⟩ := findIdx_get s.links cid idx hidx
+  have hne : data ≠ [] := by intro h; subst h; simp [Codec.getPacketTypeS] at hpt
+  rw [handleUplinkPacket_eq s cid data now idx l hne hidx hl]
+  obtain ⟨hf, hd, -⟩ := incoming_spec l idx s.reg s.clientKnown data now pt hpt
+  simp only [hf, hd]
+
+/-- Every link after one uplink event, relative to the same position before it: the arrival link
+goes through its arm first, then every link goes through the ACK/NAK fan-out. -/
+theorem handleUplinkPacket_link (s : Sys F) (cid : Nat) (data : Codec.Bytes) (now idx : Nat) (l : FLink F)
     (hne : data ≠ []) (hidx : s.links.findIdx? (·.core.connId == cid) = some idx)
-    (hl : s.links[idx]? = some l) :
-    PW (fun (a b : FLink F) => ∃ a', (a' = a ∨ (a = l ∧ a' = arrival l idx s.reg s.clientKnown data now)) ∧
-          EvStep ((pupSpec l idx s.reg s.clientKnown data now).2.2.sacks.map toI32)
-            (pupSpec l idx s.reg s.clientKnown data now).2.2.acks now a' b)
-      s.links (handleUplinkPacket s cid data now).1.links := by
+    (hl : s.links[idx]? = some l) (j : Nat) (a : FLink F) (ha : s.links[j]? = some a) :
+    ∃ b, (handleUplinkPacket s cid data now).1.links[j]? = some b ∧
+      EvStep ((pupSpec l idx s.reg s.clientKnown data now).2.2.sacks.map toI32)
+        (pupSpec l idx s.reg s.clientKnown data now).2.2.acks now
+        (if j = idx then arrival l idx s.reg s.clientKnown data now else a) b := by
   rw [handleUplinkPacket_eq s cid data now idx l hne hidx hl]
   dsimp only
-  have h1 : PW (fun (a a' : FLink F) => a' = a ∨ (a = l ∧ a' = arrival l idx s.reg s.clientKnown data now))
-      s.links (setAt s.links idx (arrival l idx s.reg s.clientKnown data now)) := by
-    refine ⟨by simp [setAt], ?_⟩
-    intro j a b ha hb
-    rw [getElem?_setAt, ha] at hb
-    split at hb
-    · rename_i hj; subst hj
-      rw [hl] at ha; cases ha
-      simp at hb
-      exact Or.inr ⟨rfl, hb.symm⟩
-    · cases hb; exact Or.inl rfl
   have h2 := pCE_links
     ({ s with links := setAt s.links idx (arrival l idx s.reg s.clientKnown data now),
               reg := (pupSpec l idx s.reg s.clientKnown data now).2.1 } : Sys F)
     idx (pupSpec l idx s.reg s.clientKnown data now).2.2 now
-  exact PW.trans h1 h2 (fun a a' b h h' => ⟨a', h, h'⟩)
+  have h1 : (setAt s.links idx (arrival l idx s.reg s.clientKnown data now))[j]? =
+      some (if j = idx then arrival l idx s.reg s.clientKnown data now else a) := by
+    rw [getElem?_setAt, ha]
+    split <;> rfl
+  exact h2.get h1
+
+theorem handleUplinkPacket_length (s : Sys F) (cid : Nat) (data : Codec.Bytes) (now : Nat) :
+    (handleUplinkPacket s cid data now).1.links.length = s.links.length := by
+  by_cases hne : data = []
+  · subst hne; simp [handleUplinkPacket]
+  cases hf : s.links.findIdx? (·.core.connId == cid) with
+  | none => rw [unknown_link s cid data now hf]
+  | some idx =>
+    obtain ⟨l, hl, -⟩ := findIdx_get s.links cid idx hf
+    rw [handleUplinkPacket_eq s cid data now idx l hne hf hl]
+    dsimp only
+    have h2 := pCE_links
+      ({ s with links := setAt s.links idx (arrival l idx s.reg s.clientKnown data now),
+                reg := (pupSpec l idx s.reg s.clientKnown data now).2.1 } : Sys F)
+      idx (pupSpec l idx s.reg s.clientKnown data now).2.2 now
+    rw [← h2.1]
+    simp [setAt]
+
+/-! ## Small facts used by the property files -/
+
+theorem type_of_len (data : Codec.Bytes) (h : 2 ≤ data.length) : ∃ pt, Codec.getPacketTypeS data = some pt := by
+  match data, h with
+  | a :: b :: _, _ => exact ⟨_, rfl⟩
+
+theorem ok_of_ne_panic {α : Type} {x : Codec.Chk α} (h : x ≠ .panic) :
+    ∃ a, x = .ok a ∧ ∀ d, Codec.unChk d x = a := by
+  cases x with
+  | ok a => exact ⟨a, rfl, fun _ => rfl⟩
+  | panic => exact absurd rfl h
 
 end Srtla.Uplink
